@@ -186,6 +186,29 @@ def expand_text(fn, e, depth=5):
     return render(expand(fn, e, depth)).replace(" ", "")
 
 
+def facts_at(fn, fi, node, stop_at=None):
+    """Atomic conditions known to hold (True) or not to hold (False) when node executes: the dominating guards (FuncIndex.guards)
+    with stable locals replaced by their initialisers, negations pushed inwards, and conjunctions that hold / disjunctions that do
+    not hold split into their operands.  A disjunction that holds (or a conjunction that does not) states no atomic fact."""
+    out = []
+
+    def split(e, pol):
+        e = strip(e)
+        while e.get("k") == "ParenExpr" and e.get("c"):
+            e = strip(e["c"][0])
+        if e.get("k") == "UnaryOperator" and e.get("op") == "!" and e.get("c"):
+            split(e["c"][0], not pol)
+        elif e.get("k") == "BinaryOperator" and e.get("op") in ("&&", "||") and len(e.get("c", [])) == 2:
+            if (e["op"] == "&&") == pol:
+                split(e["c"][0], pol)
+                split(e["c"][1], pol)
+        else:
+            out.append((e, pol))
+    for cond, pol in fi.guards(node, stop_at=stop_at):
+        split(expand(fn, cond), pol)
+    return out
+
+
 def is_call(n):
     return n.get("k") in ("CallExpr", "CXXMemberCallExpr", "CXXOperatorCallExpr", "CXXConstructExpr",
                           "CXXTemporaryObjectExpr")
